@@ -211,7 +211,10 @@ def evaluate(tree_json, line, path, behaviour):
              "handler saw verbosity %r, expected %r" % (seen["verbosity"], level))
     if seen["interactive"] != ("no-interaction" not in S):
         fail("interaction|io-state", "handler saw is_interactive()=%r with switches %r" % (seen["interactive"], sorted(S)))
-    if behaviour == "ask":
+    if behaviour == "ask" and ("answer" not in seen or "confirmed" not in seen):
+        # the handler did not get as far as recording its answers (a question raised): an observation, not a harness error
+        fail("interaction|question-failed", "the asking handler recorded no answers (status %r, stderr %r)" % (r.status, r.err[-160:]))
+    elif behaviour == "ask":
         if "no-interaction" in S:
             if (seen["answer"], seen["confirmed"]) != ("DFLT", False):
                 fail("interaction|question-not-default", "non-interactive run: answers %r, %r" % (seen["answer"], seen["confirmed"]))
